@@ -105,7 +105,7 @@ theorem stmt_unc {scope : List String} {r : String} {v : Bool} {iret : Nat} {unc
     rw [← hgo.2.2.2, hnil] at this
     exact absurd this (Nat.lt_irrefl _)
   obtain ⟨bM, bN⟩ := bennettF t1.qc.marked (cur σ0 t1) (Lof s t1) (cur σ0 s) hok
-    (CtlOK.mono (fun f c hq => hq.imp (fun hm => (hMc c).mpr hm) id) _ _ gi.ben) (cur_of_gates gi.gates).symm
+    (CtlOK.mono (fun f c hq => Or.inr hq) _ _ gi.ben) (cur_of_gates gi.gates).symm
   have hcur4 : cur σ0 t4 = runF (rep t1.qc.marked (Lof s t1)) (cur σ0 t1) := by rw [c1, hrep, hcur31]
   have hcur5 : cur σ0 t5 = cur σ0 t4 := by unfold cur; rw [hqc5]
   have hv4M : ∀ q ∈ t1.qc.marked, cur σ0 t5 q = false := by
